@@ -24,7 +24,14 @@
 //! default execution profile (`profile`), on an execution-profile handle attached to the statement (`handle`; the
 //! session default then carries the fall-through policy and another consistency), or on the statement with decoy
 //! values on BOTH profiles (`both`) - execution.rs:122-160 and its copy pager.rs:146-186.
-//! `via=caching`: through a `CachingSession`.
+//! `via=caching`: through a `CachingSession`.  `idems=<0110…>`: the idempotence flag of every single request (same
+//! text, different flags: what a caller passes must govern THAT call, whatever an earlier call cached).
+//! kind `ctl`: the single-connection pager (`Connection::execute_iter` -> `SingleConnectionPagingExecutor`,
+//! pager.rs:535-600, used for the control connection's queries) through the hook `VerifConn`: its retry policy is
+//! hard-coded (fall-through): exactly one attempt per page, whatever the answer.
+//! kind `sameconn` (`pool=<k>` connections per node): a custom policy answers RetrySameTarget to a broken connection;
+//! the node closes the connection that carried the attempt: the next attempt must go out on ANOTHER connection of
+//! the node (`get_connection()` is asked again before every attempt, execution.rs:536) and succeed.
 //!
 //! ORACLE (C06's statement, judged on the frames the nodes saw, interleaved with the decisions a recording wrapper
 //! around the REAL policy saw; no model involved):
@@ -285,7 +292,7 @@ fn request_of(r: &Req, n_req: usize) -> Option<usize> {
 #[derive(Clone, Debug)]
 enum Ev {
     /// a statement frame: scripted outcome, node, page it asks for, consistency it carries
-    Frame { o: String, node: usize, page: usize, cl: u16 },
+    Frame { o: String, node: usize, conn: usize, page: usize, cl: u16 },
     /// a PREPARE frame sent during the request and its scripted answer
     Prep { o: String },
     /// a decision of the (real) retry session: name and the consistency a retry decision names
@@ -335,6 +342,29 @@ impl RetrySession for RecSession {
     }
 }
 
+/// `sameconn`: RetrySameTarget on a broken connection (at most 5 times per request), DontRetry otherwise.
+#[derive(Debug)]
+struct SameOnBroken;
+struct SameOnBrokenSession(usize);
+impl RetryPolicy for SameOnBroken {
+    fn new_session(&self) -> Box<dyn RetrySession> {
+        Box::new(SameOnBrokenSession(0))
+    }
+}
+impl RetrySession for SameOnBrokenSession {
+    fn decide_should_retry(&mut self, ri: RequestInfo) -> RetryDecision {
+        if matches!(ri.error, scylla::errors::RequestAttemptError::BrokenConnectionError(_)) && self.0 < 5 {
+            self.0 += 1;
+            RetryDecision::RetrySameTarget(None)
+        } else {
+            RetryDecision::DontRetry
+        }
+    }
+    fn reset(&mut self) {
+        self.0 = 0;
+    }
+}
+
 fn page_state(q: usize, j: usize) -> Vec<u8> {
     vec![0x50, q as u8, j as u8]
 }
@@ -352,7 +382,7 @@ pub fn run(words: &[&str], ctx: &mut Ctx) -> String {
     if !(1..=8).contains(&n)
         || sh > 8
         || !["def", "fall", "down"].contains(&pol)
-        || !["exec", "query", "batch", "qvals", "batchv", "itere", "iterq"].contains(&kind)
+        || !["exec", "query", "batch", "qvals", "batchv", "itere", "iterq", "ctl", "sameconn"].contains(&kind)
     {
         return "bad-case".into();
     }
@@ -360,13 +390,20 @@ pub fn run(words: &[&str], ctx: &mut Ctx) -> String {
     let cfg = p.str("cfg").unwrap_or("stmt");
     let (Some(pages), Some(tmo)) = (p.num_or("pages", 3), p.num_or("tmo", 0)) else { return "bad-case".into() };
     let tmoat = p.str("tmoat").unwrap_or("stmt");
-    let iter_kind = kind == "itere" || kind == "iterq";
+    let iter_kind = kind == "itere" || kind == "iterq" || kind == "ctl";
+    let Some(pool) = p.num_or("pool", if kind == "sameconn" { 2 } else { 0 }) else { return "bad-case".into() };
+    // per-request idempotence flags (default: `idem` for every request)
+    let idems: Option<Vec<bool>> = p.str("idems").map(|s| s.chars().map(|c| c == '1').collect());
+    if pool > 4 || p.str("idems").is_some_and(|s| s.chars().any(|c| c != '0' && c != '1')) {
+        return "bad-case".into();
+    }
     if !["session", "caching"].contains(&via)
         || !["stmt", "profile", "handle", "both"].contains(&cfg)
         || !["stmt", "profile"].contains(&tmoat)
         || !(1..=6).contains(&pages)
         || tmo > 100_000
-        || (via != "session" && (cfg != "stmt" || iter_kind || tmo != 0))
+        || (via != "session" && (cfg != "stmt" || iter_kind || tmo != 0 || kind == "sameconn"))
+        || ((kind == "ctl" || kind == "sameconn") && (cfg != "stmt" || tmo != 0))
     {
         return "bad-case".into();
     }
@@ -389,6 +426,10 @@ pub fn run(words: &[&str], ctx: &mut Ctx) -> String {
     }
     let n = n as usize;
     let pages = pages as usize;
+    if idems.as_ref().is_some_and(|v| v.len() != scripts.len()) {
+        return "bad-case".into();
+    }
+    let idem_of = |q: usize| -> bool { idems.as_ref().map(|v| v[q]).unwrap_or(idem != 0) };
     let shape = Shape { nodes: n, dcs: 1, racks: 1, shards: sh as u16, msb: 12, vnodes: 2, strat: Strat::Simple(n.min(2)), seed };
     let n_req = scripts.len();
     let log: EvLog = Arc::new(Mutex::new(vec![Vec::new(); n_req]));
@@ -440,7 +481,7 @@ pub fn run(words: &[&str], ctx: &mut Ctx) -> String {
         let mut lg = log_h.lock().unwrap();
         let k = lg[q].iter().filter(|e| matches!(e, Ev::Frame { .. })).count();
         let o = scripts_h[q].get(k).cloned().unwrap_or_else(|| "ok".to_owned());
-        lg[q].push(Ev::Frame { o: o.clone(), node: r.node, page, cl: frame_cl });
+        lg[q].push(Ev::Frame { o: o.clone(), node: r.node, conn: r.conn, page, cl: frame_cl });
         let ok_acts = || -> Vec<Act> {
             if iter_kind && page < pages {
                 let rows: Vec<Vec<Cell>> =
@@ -472,6 +513,7 @@ pub fn run(words: &[&str], ctx: &mut Ctx) -> String {
         use scylla::statement::batch::{Batch, BatchType};
         use scylla::statement::unprepared::Statement;
         let inner: Arc<dyn RetryPolicy> = match pol {
+            _ if kind == "sameconn" => Arc::new(SameOnBroken),
             "fall" => Arc::new(FallthroughRetryPolicy::new()),
             "down" => Arc::new(DowngradingConsistencyRetryPolicy::new()),
             _ => Arc::new(DefaultRetryPolicy::new()),
@@ -515,9 +557,15 @@ pub fn run(words: &[&str], ctx: &mut Ctx) -> String {
         let on_stmt = cfg == "stmt" || cfg == "both";
         let cluster = MockCluster::start(shape.topology(), handler).await;
         let sd = session_default.clone();
-        let session = match connect(&cluster, move |b| match &sd {
-            Some(h) => b.default_execution_profile_handle(h.clone()),
-            None => b,
+        let session = match connect(&cluster, move |b| {
+            let b = match &sd {
+                Some(h) => b.default_execution_profile_handle(h.clone()),
+                None => b,
+            };
+            match std::num::NonZeroUsize::new(pool as usize) {
+                Some(k) => b.pool_size(scylla::client::PoolSize::PerHost(k)),
+                None => b,
+            }
         })
         .await
         {
@@ -529,7 +577,6 @@ pub fn run(words: &[&str], ctx: &mut Ctx) -> String {
             Ok(ps) => ps,
             Err(_) => return "e2e-skip prepare-failed".to_owned(),
         };
-        ps.set_is_idempotent(idem != 0);
         if on_stmt {
             ps.set_retry_policy(Some(Arc::clone(&policy)));
             if let Some(c) = consistency {
@@ -543,9 +590,9 @@ pub fn run(words: &[&str], ctx: &mut Ctx) -> String {
         if iter_kind {
             ps.set_page_size(2);
         }
-        let configured = |text: String| {
+        let configured = |text: String, idem: bool| {
             let mut st = Statement::new(text);
-            st.set_is_idempotent(idem != 0);
+            st.set_is_idempotent(idem);
             if on_stmt {
                 st.set_retry_policy(Some(Arc::clone(&policy)));
                 if let Some(c) = consistency {
@@ -569,8 +616,46 @@ pub fn run(words: &[&str], ctx: &mut Ctx) -> String {
             (_, Some(cs)) => cs.get_session(),
             _ => unreachable!(),
         };
+        // the single-connection pager: one hooked connection to node 0, the statement prepared on it
+        let ctl_conn = if kind == "ctl" {
+            match scylla::verif_hooks::connection::VerifConn::open(cluster.addr(0), Default::default()).await {
+                Ok(c) => Some(c),
+                Err(_) => return "e2e-skip ctl-connection-failed".to_owned(),
+            }
+        } else {
+            None
+        };
+        let ctl_prepared = match &ctl_conn {
+            Some(c) => match c.prepare(&Statement::new(SELECT_ALL)).await {
+                Ok(mut p) => {
+                    if let Some(c) = consistency {
+                        p.set_consistency(c);
+                    }
+                    p.set_page_size(2);
+                    Some(p)
+                }
+                Err(_) => return "e2e-skip ctl-prepare-failed".to_owned(),
+            },
+            None => None,
+        };
         let mut kinds: Vec<String> = Vec::new();
         for q in 0..n_req {
+            if kind == "sameconn" {
+                // every node must have all its `pool` connections before the request (the cluster's own notion of a
+                // full pool is one connection per shard)
+                let t0 = std::time::Instant::now();
+                let live = |i: usize| cluster.conns().iter().filter(|c| c.node == i && c.ready.is_some() && c.closed.is_none() && !c.control).count();
+                while (0..n).any(|i| live(i) < pool as usize) && t0.elapsed() < Duration::from_secs(8) {
+                    tokio::time::sleep(Duration::from_millis(10)).await;
+                }
+                if (0..n).any(|i| live(i) < pool as usize) {
+                    return "e2e-skip pool-not-filled".to_owned();
+                }
+            }
+            let idem_q = idem_of(q);
+            let mut ps = ps.clone();
+            ps.set_is_idempotent(idem_q);
+            let configured = |text: String| configured(text, idem_q);
             *current.lock().unwrap() = Some(q);
             let res: Result<(), String> = match (kind, &caching) {
                 ("exec", None) => session.execute_unpaged(&ps, (key_of(q), 0i32)).await.map(|_| ()).map_err(|e| error_kind(&e).to_owned()),
@@ -584,6 +669,28 @@ pub fn run(words: &[&str], ctx: &mut Ctx) -> String {
                 }
                 // prepared by the CachingSession, executed without values
                 ("query", Some(cs)) => cs.execute_unpaged(configured(text_of(q)), ()).await.map(|_| ()).map_err(|e| error_kind(&e).to_owned()),
+                ("ctl", _) => {
+                    let mut p = ctl_prepared.clone().unwrap();
+                    p.set_is_idempotent(idem_q);
+                    match ctl_conn.as_ref().unwrap().execute_iter_raw(p, scylla_cql::serialize::row::SerializedValues::new()).await {
+                        Err(e) => Err(next_row_error_kind(&e).to_owned()),
+                        Ok(pager) => match pager.rows_stream::<(Vec<u8>, i32)>() {
+                            Err(_) => Err("typecheck".to_owned()),
+                            Ok(mut stream) => {
+                                use futures::StreamExt;
+                                let mut out = Ok(());
+                                while let Some(item) = stream.next().await {
+                                    if let Err(e) = item {
+                                        out = Err(next_row_error_kind(&e).to_owned());
+                                        break;
+                                    }
+                                }
+                                out
+                            }
+                        },
+                    }
+                }
+                ("sameconn", _) => session.execute_unpaged(&ps, (key_of(q), 0i32)).await.map(|_| ()).map_err(|e| error_kind(&e).to_owned()),
                 ("itere", _) | ("iterq", _) => {
                     // the transparent pager: consume the row stream to its end or first error
                     let pager = if kind == "itere" {
@@ -621,7 +728,7 @@ pub fn run(words: &[&str], ctx: &mut Ctx) -> String {
                     b.append_statement(ps.clone());
                     // unprepared WITH a value: prepare_batch prepares it on the connection in every attempt
                     b.append_statement(Statement::new("INSERT INTO ks.t (pk, v) VALUES (?, 1)"));
-                    b.set_is_idempotent(idem != 0);
+                    b.set_is_idempotent(idem_q);
                     if on_stmt {
                         b.set_retry_policy(Some(Arc::clone(&policy)));
                         if let Some(c) = consistency {
@@ -638,7 +745,7 @@ pub fn run(words: &[&str], ctx: &mut Ctx) -> String {
                     let mut b = Batch::new(BatchType::Logged);
                     b.append_statement(ps.clone());
                     b.append_statement(Statement::new("INSERT INTO ks.t (pk, v) VALUES (0x00, 1)"));
-                    b.set_is_idempotent(idem != 0);
+                    b.set_is_idempotent(idem_q);
                     if on_stmt {
                         b.set_retry_policy(Some(Arc::clone(&policy)));
                         if let Some(c) = consistency {
@@ -673,10 +780,12 @@ pub fn run(words: &[&str], ctx: &mut Ctx) -> String {
         let mut summary = Vec::new();
         let unp = |o: &str| o == "unp" || o == "unpx";
         for q in 0..n_req {
+            let idem = if idem_of(q) { 1 } else { 0 };
+            let conns: Vec<usize> = log[q].iter().filter_map(|e| match e { Ev::Frame { conn, .. } => Some(*conn), _ => None }).collect();
             let frames: Vec<(&str, usize, usize, u16)> = log[q]
                 .iter()
                 .filter_map(|e| match e {
-                    Ev::Frame { o, node, page, cl } => Some((o.as_str(), *node, *page, *cl)),
+                    Ev::Frame { o, node, page, cl, .. } => Some((o.as_str(), *node, *page, *cl)),
                     _ => None,
                 })
                 .collect();
@@ -687,7 +796,7 @@ pub fn run(words: &[&str], ctx: &mut Ctx) -> String {
                 q, if idem != 0 { "idempotent" } else { "NOT idempotent" }, kind, pol, cfg, cl, via
             );
             // (a) frame level: a frame asking for the same page as its predecessor is a RE-SEND of that page request
-            if idem == 0 {
+            if idem == 0 && kind != "sameconn" {
                 for k in 1..frames.len() {
                     let prev = frames[k - 1].0;
                     if frames[k].2 == frames[k - 1].2 && !PROOF.contains(&prev) && !unp(prev) {
@@ -696,6 +805,29 @@ pub fn run(words: &[&str], ctx: &mut Ctx) -> String {
                             what, k + 1, frames[k].2, frames[k].1, prev, sv
                         ));
                         break;
+                    }
+                }
+            }
+            // (a') `sameconn`: after a closed connection the policy asked for the SAME node again: the frame must go out on
+            //      another connection of it, and the request must succeed in the end
+            if kind == "sameconn" {
+                for k in 1..frames.len() {
+                    if frames[k - 1].0 == "cl" && (frames[k].1 != frames[k - 1].1 || conns[k] == conns[k - 1]) {
+                        ctx.fail(format!("e2e retry: {}: after connection {} of node {} was closed, the RetrySameTarget attempt went to node {} connection {}; served {:?}", what, conns[k - 1], frames[k - 1].1, frames[k].1, conns[k], sv));
+                    }
+                }
+                let closes = sv.iter().filter(|o| **o == "cl").count();
+                if closes >= 1 && closes < pool as usize && sv.iter().all(|o| *o == "cl" || *o == "ok") && sv.last() != Some(&"ok") {
+                    ctx.fail(format!("e2e retry: {}: {} of the node's {} connections were closed and the policy keeps asking for the same node, but the request was not sent on a live connection (result `{}`); served {:?}", what, closes, pool, kinds[q], sv));
+                }
+            }
+            // (a'') the single-connection pager never retries: one attempt per page
+            if kind == "ctl" {
+                for pg in 0..pages {
+                    let fv: Vec<&str> = frames.iter().filter(|f| f.2 == pg).map(|f| f.0).collect();
+                    let attempts = if fv.is_empty() { 0 } else { 1 + (1..fv.len()).filter(|k| !unp(fv[k - 1])).count() };
+                    if attempts > 1 {
+                        ctx.fail(format!("e2e retry: {}: page {} of the single-connection pager was attempted {} times; served {:?}", what, pg, attempts, sv));
                     }
                 }
             }
@@ -738,6 +870,9 @@ pub fn run(words: &[&str], ctx: &mut Ctx) -> String {
                     continue;
                 }
                 let attempts = 1 + (1..fv.len()).filter(|k| !unp(fv[k - 1])).count();
+                if kind == "sameconn" || kind == "ctl" {
+                    continue;
+                }
                 if pol == "fall" && attempts > 1 {
                     ctx.fail(format!("e2e retry: {} (page {}) was attempted {} times although the fall-through policy never retries; served {:?}", what, pg, attempts, sv));
                 }
